@@ -706,6 +706,16 @@ func (m *bfMachine) eval(fr *bfFrame, heap bfHeap, v ssa.Value) (any, string, bo
 			if !ok {
 				return bfUnknown{"load through an unmodelled pointer"}, "", false
 			}
+			if g, isG := x.X.(*ssa.Global); isG {
+				// a package-level table that only its initialiser writes
+				if es := globalArrayLiteral(g); es != nil {
+					out := bfArr{n: len(es), el: map[int]any{}}
+					for k, e := range es {
+						out.el[k] = m.value(fr, e)
+					}
+					return out, "", false
+				}
+			}
 			if p.obj < 0 {
 				// package-level variables: error values are non-nil sentinels, the rest is unknown
 				if _, isIface := x.Type().Underlying().(*types.Interface); isIface && types.Identical(x.Type(), types.Universe.Lookup("error").Type()) {
